@@ -13,8 +13,9 @@ and no dangling separator). Counting segments directly is not well defined on `L
 existential: `[]` and `[⟨[], none, []⟩]` print the same field) and `a` → `` by `remove_entry` would
 count as "a new empty segment", which is why the statement is over COMMA tokens against items.
 
-`C11_lay_step_no_new_empty`: no call with valid operands on a layout makes `excess` larger;
-`C11_history_no_new_empty`: nor does a history.
+`C11_lay_step_no_new_empty`: no call with valid operands on a layout makes `excess` larger (every
+operation; `C11_lay_istep_no_new_empty` for calls by index); `C11_history_no_new_empty` /
+`C11_ihistory_no_new_empty`: nor does a history.
 -/
 namespace Deb822Verif.Props.C11Seps
 open Deb822Verif Rel Node RelSpec Lossy Build Edit
@@ -312,20 +313,153 @@ theorem C11_removeEntry_no_new_empty (f f' : Field) (hl : Lay f) (i p : Nat)
     rw [e4] at hc
     exact entryRemove_excess f.kids e.node A s B hcs rfl c hc
 
-/-! ### one step (the calls that add or remove items at the root) -/
+/-! ### the calls inside one entry: an ENTRY node is swapped for another -/
 
-/-- the calls that change the root's children other than inside one entry -/
-def rootOp : Op → Prop
-  | .insert _ _ | .push _ | .replace _ _ | .removeEntry _ | .removeEntryAt _ => True
-  | _ => False
+theorem replaceAt_item (cs : List RNode) (p : Nat) (x y : RNode) (hx : cs[p]? = some x)
+    (hxi : isItemNode x = true) (hyi : isItemNode y = true) :
+    commas (replaceAt cs p [y]) = commas cs ∧ items (replaceAt cs p [y]) = items cs
+      ∧ (replaceAt cs p [y])[p]? = some y := by
+  obtain ⟨hk, hl⟩ := kids_split ⟨cs, [], []⟩ p x hx
+  obtain ⟨pre, post, hk', hl'⟩ : ∃ pre post, cs = pre ++ x :: post ∧ pre.length = p := ⟨_, _, hk, hl⟩
+  subst hk' hl'
+  rw [replaceAt_split]
+  refine ⟨?_, ?_, by simp⟩
+  · simp only [commas_append, commas_cons, item_not_comma x hxi, item_not_comma y hyi, commas_nil]; simp
+  · simp only [items_append, items_cons, hxi, hyi, items_nil]; simp; omega
 
-/-- PARTIAL (the calls that edit inside one entry — setters, `Entry::push` / `replace`,
-    `remove_relation` — are not covered here; they replace one ENTRY node by another, or, for the only
-    alternative, go through `Entry::remove`): no root-level call with valid operands on a layout makes
-    the number of commas beyond the separating ones larger -/
-theorem C11_lay_step_no_new_empty_partial (f f' : Field) (hl : Lay f) (op : Op) (hr : rootOp op)
+theorem item_node_of_entry {e : RNode} (h : isNodeOf .ENTRY e = true) (X : List RNode) :
+    isNodeOf .ENTRY (Node.node e.kind X) = true := by
+  simp only [isNodeOf, Bool.and_eq_true] at h
+  simp only [isNodeOf, Node.isNode, Node.kind, Bool.true_and]
+  exact h.2
+
+theorem entryEdit_counts (f : Field) (p : Nat) (c : Cut) (lost : Nat → Option Str) (hp : EOk f (.at p)) :
+    commas (f.entryEdit p c lost).kids = commas f.kids ∧ items (f.entryEdit p c lost).kids = items f.kids
+      ∧ EOk (f.entryEdit p c lost) (.at p) := by
+  obtain ⟨e, he, hent⟩ := hp
+  have h := replaceAt_item f.kids p e (.node e.kind c.kids) he (item_of_entry hent)
+    (item_of_entry (item_node_of_entry hent _))
+  have hk : (f.entryEdit p c lost).kids = replaceAt f.kids p [.node e.kind c.kids] := by
+    simp only [Field.entryEdit, he]
+  refine ⟨by rw [hk]; exact h.1, by rw [hk]; exact h.2.1, _, by rw [hk]; exact h.2.2, item_node_of_entry hent _⟩
+
+theorem relEdit_counts (f : Field) (p q : Nat) (g : RNode → RNode) (hp : EOk f (.at p)) :
+    commas (f.relEdit p q g).kids = commas f.kids ∧ items (f.relEdit p q g).kids = items f.kids := by
+  obtain ⟨e, he, hent⟩ := hp
+  simp only [Field.relEdit, he]
+  split
+  · have h := replaceAt_item f.kids p e (.node e.kind (replaceAt e.children q [g ‹_›])) he (item_of_entry hent)
+      (item_of_entry (item_node_of_entry hent _))
+    exact ⟨h.1, h.2.1⟩
+  · exact ⟨rfl, rfl⟩
+
+theorem eok_of_rok {f : Field} {p q : Nat} (h : ROk f (.at p q)) : EOk f (.at p) := by
+  obtain ⟨e, r, he, hent, _, _⟩ := h
+  exact ⟨e, he, hent⟩
+
+theorem eok_of_nth {f : Field} {i p : Nat} (h : nthNode .ENTRY f.kids i = some p) : EOk f (.at p) := by
+  obtain ⟨pre, x, post, e, hl, hx, _⟩ := nthPos_some h
+  exact ⟨x, by rw [e, ← hl]; exact getElem?_split pre x post, hx⟩
+
+theorem entryReplaceAt_counts (f f' : Field) (p j : Nat) (rel : RNode) (hp : EOk f (.at p))
+    (h : f.entryReplaceAt p j rel = .ok f') : commas f'.kids = commas f.kids ∧ items f'.kids = items f.kids := by
+  unfold Field.entryReplaceAt at h
+  split at h
+  · cases h
+  · rename_i q hq
+    cases hr : entryReplaceIn (f.entryKids p) q rel with
+    | panic m => rw [hr] at h; cases h
+    | ok pr =>
+      obtain ⟨kids', old'⟩ := pr
+      rw [hr] at h
+      simp only [Outcome.map, Outcome.ok.injEq] at h
+      subst h
+      obtain ⟨a1, a2, a3⟩ := entryEdit_counts f p
+        ⟨(f.entryKids p).take q ++ (f.entryKids p).drop (q + 1), Remap.cut q (q + 1)⟩
+        (fun x => if x = q then some old'.text else none) hp
+      obtain ⟨b1, b2, _⟩ := entryEdit_counts _ p ⟨kids', Remap.ins q 1⟩ (fun _ => none) a3
+      exact ⟨b1.trans a1, b2.trans a2⟩
+
+/-- `Relation::remove` / `Entry::remove_relation` on a layout: the ENTRY node is swapped for one with an
+    alternative less; when it was the only alternative the entry goes through `Entry::remove` -/
+theorem C11_removeRelation_no_new_empty (f f' : Field) (hl : Lay f) (i p q : Nat)
+    (hp : nthNode .ENTRY f.kids i = some p) (h : f.removeRelationAt p q = .ok f') :
+    excess f'.kids ≤ excess f.kids := by
+  have heok := eok_of_nth hp
+  obtain ⟨l, hok, hk⟩ := hl
+  rw [hk] at hp
+  obtain ⟨A, s, B, e, e1, e2, e3, e4⟩ := nthEntry_lay l i p hp
+  have hcs : f.kids = (lkidsC A ++ tks (gapToks s.pre)) ++ e.node :: (tks (gapToks s.post) ++ restKids B) := by
+    rw [hk, e1, lkids_at_ent A s B e e2]
+  unfold Field.removeRelationAt at h
+  cases hc : relationRemoveIn (f.entryKids p) q with
+  | panic m => rw [hc] at h; cases h
+  | ok c =>
+    rw [hc] at h
+    simp only [Outcome.bind] at h
+    obtain ⟨a1, a2, _⟩ := entryEdit_counts f p c (fun _ => none) heok
+    have hk1 : (f.entryEdit p c).kids
+        = (lkidsC A ++ tks (gapToks s.pre)) ++ Node.node .ENTRY c.kids :: (tks (gapToks s.post) ++ restKids B) := by
+      rw [entryEdit_kids f p c _ (lkidsC A ++ tks (gapToks s.pre)) e.node (tks (gapToks s.post) ++ restKids B)
+        hcs e4.symm]
+      simp [LEnt.node, Node.kind]
+    have hex : excess (f.entryEdit p c).kids = excess f.kids := by unfold excess; rw [a1, a2]
+    split at h
+    · unfold Field.removeEntryAt at h
+      cases hc2 : entryRemove (f.entryEdit p c).kids p with
+      | panic m => rw [hc2] at h; cases h
+      | ok c2 =>
+        rw [hc2] at h
+        simp only [Outcome.map, Outcome.ok.injEq] at h
+        subst h
+        rw [e4] at hc2
+        have := entryRemove_excess (f.entryEdit _ c).kids (Node.node .ENTRY c.kids) A s B (by rw [← e4]; exact hk1) rfl c2 hc2
+        rw [← e4] at this
+        show excess c2.kids ≤ _
+        omega
+    · simp only [Outcome.ok.injEq] at h
+      subst h
+      omega
+
+/-! ### one step -/
+
+/-- oracle clause 3 as a theorem: no call with valid operands (through a live handle or by index) on a
+    layout makes the number of commas beyond the separating ones larger -/
+theorem C11_lay_step_no_new_empty (f f' : Field) (hl : Lay f) (op : Op)
     (ho : op.layH f) (h : step f op = .ok f') : excess f'.kids ≤ excess f.kids := by
+  have setter : ∀ (p q : Nat) (g : RNode → RNode), ROk f (.at p q) →
+      excess (f.relEdit p q g).kids ≤ excess f.kids := by
+    intro p q g hr
+    obtain ⟨a1, a2⟩ := relEdit_counts f p q g (eok_of_rok hr)
+    unfold excess; omega
   cases op with
+  | setArchqual p q aq => simp only [step, Outcome.ok.injEq] at h; subst h; exact setter p q _ ho.1
+  | setVersion p q vc => simp only [step, Outcome.ok.injEq] at h; subst h; exact setter p q _ ho.1
+  | dropConstraint p q => simp only [step, Outcome.ok.injEq] at h; subst h; exact setter p q _ ho
+  | setArchitectures p q as => simp only [step, Outcome.ok.injEq] at h; subst h; exact setter p q _ ho.1
+  | addProfile p q g => simp only [step, Outcome.ok.injEq] at h; subst h; exact setter p q _ ho.1
+  | entryPush p rel =>
+    simp only [step, Outcome.ok.injEq] at h; subst h
+    obtain ⟨a1, a2, _⟩ := entryEdit_counts f p (entryPushIn (f.entryKids p) rel) (fun _ => none) ho.1
+    show excess (f.entryEdit p _).kids ≤ _
+    unfold excess; omega
+  | entryReplace p j rel =>
+    simp only [step] at h
+    obtain ⟨a1, a2⟩ := entryReplaceAt_counts f f' p j rel ho.1 h
+    unfold excess; omega
+  | removeRelationAt p q =>
+    simp only [step] at h
+    obtain ⟨i, j, hp, _⟩ := rok_addr ho
+    exact C11_removeRelation_no_new_empty f f' hl i p q hp h
+  | removeRelation i j =>
+    simp only [step] at h
+    unfold Field.removeRelation at h
+    split at h
+    · cases h
+    · rename_i p hp
+      split at h
+      · cases h
+      · exact C11_removeRelation_no_new_empty f f' hl i p _ hp h
   | insert i e =>
     simp only [step, Outcome.ok.injEq] at h; subst h
     exact (C11_insert_no_new_empty f.kids i e (EntOperand.isEntry ho)).2.2
@@ -347,7 +481,97 @@ theorem C11_lay_step_no_new_empty_partial (f f' : Field) (hl : Lay f) (op : Op) 
     simp only [step] at h
     obtain ⟨i, hp⟩ := eok_addr ho
     exact C11_removeEntry_no_new_empty f f' hl i p hp h
-  | _ => cases hr
+
+/-- … lifted to histories of calls through handles / by index: after any history the field has no more
+    empty segments than it started with (a field without one never gets one) -/
+theorem C11_history_no_new_empty (f f' : Field) (hl : Lay f) (ops : List Op) (ho : laysH f ops)
+    (h : run f ops = .ok f') : excess f'.kids ≤ excess f.kids := by
+  induction ops generalizing f with
+  | nil => simp only [run, Outcome.ok.injEq] at h; subst h; exact Nat.le_refl _
+  | cons op ops ih =>
+    simp only [run] at h
+    cases hs : step f op with
+    | panic m => rw [hs] at h; cases h
+    | ok f1 =>
+      rw [hs] at h
+      exact Nat.le_trans (ih f1 (lay_step f f1 hl op ho.1 hs) (ho.2 f1 hs) h)
+        (C11_lay_step_no_new_empty f f1 hl op ho.1 hs)
+
+/-! ### calls addressed by index -/
+
+theorem rok_of_locate {f : Field} {i j p q : Nat} (h : locate f i j = some (p, q)) : ROk f (.at p q) := by
+  obtain ⟨hp, hq⟩ := locate_some h
+  obtain ⟨e, he, hent⟩ := eok_of_nth hp
+  obtain ⟨pre, x, post, e2, hl, hx, _⟩ := nthPos_some hq
+  have hek : f.entryKids p = e.children := by simp [Field.entryKids, he]
+  exact ⟨e, x, he, hent, by rw [← hek, e2, ← hl]; exact getElem?_split pre x post, hx⟩
+
+/-- a call by index with valid operands resolves to a call on a live position with valid operands -/
+theorem layH_of_resolve (f : Field) (o : IOp) (ho : o.lay) (op : Op) (hres : o.resolve f = some op) :
+    op.layH f := by
+  cases o with
+  | setArchqual i j aq =>
+    simp only [IOp.resolve, Option.map_eq_some_iff] at hres
+    obtain ⟨⟨p, q⟩, hloc, rfl⟩ := hres
+    exact ⟨rok_of_locate hloc, ho⟩
+  | setVersion i j vc =>
+    simp only [IOp.resolve, Option.map_eq_some_iff] at hres
+    obtain ⟨⟨p, q⟩, hloc, rfl⟩ := hres
+    exact ⟨rok_of_locate hloc, ho⟩
+  | dropConstraint i j =>
+    simp only [IOp.resolve, Option.map_eq_some_iff] at hres
+    obtain ⟨⟨p, q⟩, hloc, rfl⟩ := hres
+    exact rok_of_locate hloc
+  | setArchitectures i j as =>
+    simp only [IOp.resolve, Option.map_eq_some_iff] at hres
+    obtain ⟨⟨p, q⟩, hloc, rfl⟩ := hres
+    exact ⟨rok_of_locate hloc, ho⟩
+  | addProfile i j g =>
+    simp only [IOp.resolve, Option.map_eq_some_iff] at hres
+    obtain ⟨⟨p, q⟩, hloc, rfl⟩ := hres
+    exact ⟨rok_of_locate hloc, ho⟩
+  | entryPush i rel =>
+    simp only [IOp.resolve, Option.map_eq_some_iff] at hres
+    obtain ⟨p, hp, rfl⟩ := hres
+    exact ⟨eok_of_nth hp, ho⟩
+  | entryReplace i j rel =>
+    simp only [IOp.resolve, Option.map_eq_some_iff] at hres
+    obtain ⟨p, hp, rfl⟩ := hres
+    exact ⟨eok_of_nth hp, ho⟩
+  | removeRelation i j => simp only [IOp.resolve, Option.some.injEq] at hres; subst hres; trivial
+  | insert i e => simp only [IOp.resolve, Option.some.injEq] at hres; subst hres; exact ho
+  | push e => simp only [IOp.resolve, Option.some.injEq] at hres; subst hres; exact ho
+  | replace i e => simp only [IOp.resolve, Option.some.injEq] at hres; subst hres; exact ho
+  | removeEntry i => simp only [IOp.resolve, Option.some.injEq] at hres; subst hres; trivial
+
+/-- the step theorem for calls addressed by index (`istep`, operands `IOp.lay`) -/
+theorem C11_lay_istep_no_new_empty (f f' : Field) (hl : Lay f) (o : IOp) (ho : o.lay)
+    (h : istep f o = .ok f') : excess f'.kids ≤ excess f.kids := by
+  unfold istep at h
+  cases hres : o.resolve f with
+  | none => rw [hres] at h; cases h
+  | some op =>
+    rw [hres] at h
+    exact C11_lay_step_no_new_empty f f' hl op (layH_of_resolve f o ho op hres) h
+
+/-- … and for histories addressed by index (`irun`, as in `C11_reread_history_any`) -/
+theorem C11_ihistory_no_new_empty (f f' : Field) (hl : Lay f) (os : List IOp) (ho : ∀ o ∈ os, o.lay)
+    (h : irun f os = .ok f') : excess f'.kids ≤ excess f.kids := by
+  induction os generalizing f with
+  | nil => simp only [irun, Outcome.ok.injEq] at h; subst h; exact Nat.le_refl _
+  | cons o os ih =>
+    simp only [irun] at h
+    cases hs : istep f o with
+    | panic m => rw [hs] at h; cases h
+    | ok f1 =>
+      rw [hs] at h
+      exact Nat.le_trans
+        (ih f1 (lay_istep f f1 hl o (ho o (by simp)) hs) (fun x hx => ho x (by simp [hx])) h)
+        (C11_lay_istep_no_new_empty f f1 hl o (ho o (by simp)) hs)
+
+/-- non-vacuity: the history `lyOps` on the odd layout `lyF` of Props/C11Layout.lean (one trailing comma) -/
+example : excess lyF.kids = 1 := by decide +kernel
+example : (irun lyF lyOps).map (fun g => excess g.kids) = .ok 0 := by decide +kernel
 
 /-! ### non-vacuity: `a, , b` (one empty segment) and `a, b` (none) -/
 
